@@ -115,6 +115,14 @@ Theorem C09_running_keyed_by_own_region :
     get_op (run_state ctl_step (init maxw) es) id = Some o -> o_rid o = rid.
 Proof. exact running_keyed_pf. Qed.
 
+(* ---- remembered as such: in every reachable state every record (what GetOperatorStatus reports for a region without
+        running operator) names an existing operator of that region, with exactly the end status that operator has ---- *)
+Theorem C09_records_truthful :
+  forall maxw es rid id st,
+    alist_get (records (run_state ctl_step (init maxw) es)) rid = Some (id, st) ->
+    exists o, get_op (run_state ctl_step (init maxw) es) id = Some o /\ o_st o = st /\ is_end_status st = true /\ o_rid o = rid.
+Proof. exact records_truthful_pf. Qed.
+
 (* ---- foreign_change_cancels ---- *)
 (* Operator.ConfVerChanged never exceeds what the passed steps account for plus what the current step counts *)
 Theorem C09_conf_ver_changed_bound :
@@ -156,12 +164,13 @@ Proof.
 Qed.
 
 (* ---- not yet proved, visible and listed under "todo" in checks/C09.json ---- *)
-(* the end status of an operator that left the running set is what GetOperatorStatus reports for its region until
-   another operator of that region is buried (checked on the real controller by the monitor, not proved on the model) *)
-Definition C09_left_running_is_recorded_todo : Prop :=
-  forall maxw es rid id st,
-    alist_get (records (run_state ctl_step (init maxw) es)) rid = Some (id, st) ->
-    exists o, get_op (run_state ctl_step (init maxw) es) id = Some o /\ o_st o = st /\ is_end_status st = true /\ o_rid o = rid.
+(* an operator that left the running set in an event has a record under its region afterwards (every removal path
+   buries; checked on the real controller by the monitor, not yet proved on the model) *)
+Definition C09_left_running_has_record_todo : Prop :=
+  forall maxw es e rid id,
+    In (rid, id) (running (run_state ctl_step (init maxw) es)) ->
+    ~ In (rid, id) (running (fst (ctl_step (run_state ctl_step (init maxw) es) e))) ->
+    alist_get (records (fst (ctl_step (run_state ctl_step (init maxw) es) e))) rid <> None.
 
 (* own steps, any number of stores, outside the refuted class *)
 Definition C09_own_steps_never_stale_general_todo : Prop :=
@@ -194,6 +203,7 @@ Print Assumptions C09_refutation_plan_is_the_builders.
 Print Assumptions C09_unapplied_step_counts_nothing_refuted.
 Print Assumptions C09_joint_state_admits_only_leave.
 Print Assumptions C09_left_running_is_ended.
+Print Assumptions C09_records_truthful.
 Print Assumptions C09_running_keyed_by_own_region.
 Print Assumptions C09_conf_ver_changed_bound.
 Print Assumptions C09_foreign_change_cancels_partial.
